@@ -36,6 +36,10 @@ def shards(tier, seed):
         for nthreads, draws, bound in ((2, 1, 3), (2, 2, 3), (2, 3, 3), (3, 1, 3), (3, 2, 2 if tier == "quick" else 3)):
             for start in ("mid", "max-2", "max-1", "max"):
                 cfgs.append({"gen": gen, "threads": nthreads, "draws": draws, "bound": bound, "start": start})
+    # a caller's mistake next to correct callers: one more thread calls next_id with an optional part that is not a
+    # string (TypeError); what the others are handed must stay pairwise distinct whatever that call does to the counter
+    for draws, bound, start in ((1, 3, "mid"), (2, 3, "mid"), (1, 3, "max-1"), (2, 2, "max-2")):
+        cfgs.append({"gen": "session", "threads": 2, "draws": draws, "bound": bound, "start": start, "failing": 1})
     out.append({"name": "node_aligned", "kind": "node_aligned",
                 "deltas": list(range(-6, 7)) if tier == "quick" else list(range(-16, 17))})
     out.append({"name": "callers2", "kind": "callers", "threads": 2, "dwr": False, "bound": 2,
@@ -124,9 +128,20 @@ def run_sched(spec):
                     with lock:
                         got.append(v)
 
+            def body_failing():
+                for k in range(cfg["draws"]):
+                    try:
+                        g.next_id(7 + k)
+                    except Exception:
+                        cov["failing_calls_raised"] = cov.get("failing_calls_raised", 0) + 1
+                    else:
+                        cov["failing_calls_returned"] = cov.get("failing_calls_returned", 0) + 1
+
             s.active = True
             for t in range(cfg["threads"]):
                 s.spawn(t, f"t{t}", body)
+            for t in range(cfg.get("failing", 0)):
+                s.spawn(cfg["threads"] + t, f"f{t}", body_failing)
             try:
                 trace = s.run(prefix)
             except Diverged:
@@ -142,7 +157,11 @@ def run_sched(spec):
             evals += 1
             vals = got if gen_kind == "sequence" else [int(x.split(";")[2] + x.split(";")[3], 16) for x in got]
             state["last"] = (got, vals)
-            return trace, judge(vals, gen_kind, sv)
+            verdict = judge(vals, gen_kind, sv)
+            if cfg.get("failing"):
+                # a failed call may or may not use up a number: only distinctness and non-zero are judged
+                verdict = [v for v in verdict if v != "not_the_successors"]
+            return trace, verdict
 
         n = 0
         try:
